@@ -346,6 +346,9 @@ func (r *rng) genArithCase(ops []string, specialPct int, aliasing bool, allowP0 
 			e := xe - gap
 			if e < -100000 {
 				e = xe - r.pick([]int{1 << 30, 1<<31 - 1, 1 << 31})
+				if xe < 0 && r.coin(50) {
+					e = xe + 1<<31 // exp - x.Exponent = 2^31: the int32 difference wraps to MinInt32
+				}
 			}
 			if e < math.MinInt32 {
 				e = math.MinInt32
